@@ -45,6 +45,9 @@ class Features:
         self.branch_record_weight = 5
         self.field_overlap = False  # records draw field names from the same start (overlapping names)
         self.default_prob = 0.4
+        self.name_clash = 0.3  # re-use short names across namespaces
+        self.utf8_bytes = False  # bytes data are UTF-8 encodings (bytes->string promotion stays decodable)
+        self.unique_shorts = False  # unqualified names unique within a schema
         self.__dict__.update(kw)
 
 
@@ -97,11 +100,11 @@ class SchemaBuilder:
         else:
             ns = ""
         short = d.choice(SHORTS)
-        if self.table and self.f.namespaces and d.p(0.3):
+        if self.table and self.f.namespaces and d.p(self.f.name_clash):
             # deliberately re-use a short name that already exists in another namespace
             short = M.split_full(d.choice(list(self.table)))[1]
         full = ns + "." + short if ns else short
-        while full in self.table or short in M.PRIMS:
+        while full in self.table or short in M.PRIMS or (self.f.unique_shorts and short in {M.split_full(x)[1] for x in self.table}):
             self.counter += 1
             short = f"{short}{self.counter}"
             full = ns + "." + short if ns else short
@@ -507,6 +510,8 @@ class DataGen:
         if k == "string":
             return self.string()
         if k == "bytes":
+            if f.utf8_bytes:
+                return self.string().encode("utf-8")
             w = d.i(10)
             if w < 2:
                 return b""
@@ -785,3 +790,433 @@ def cosmetic_variant(d, ir, table):
 
     visit(ir2)
     return ir2, table2
+
+
+# ----------------------------------------------------------------------------- graph form and evolution (C08)
+def to_graph(ir):
+    """IR (definitions at first use) -> (root, table) where every named occurrence is a ref node."""
+    table = {}
+
+    def conv(node):
+        k = node["k"]
+        if k in M.PRIMS:
+            return dict(node)
+        if k == "ref":
+            return {"k": "ref", "name": node["name"]}
+        if k == "array":
+            return {"k": "array", "items": conv(node["items"])}
+        if k == "map":
+            return {"k": "map", "values": conv(node["values"])}
+        if k == "union":
+            return {"k": "union", "branches": [conv(b) for b in node["branches"]]}
+        full = node["name"]
+        if k == "record":
+            d = {"k": "record", "name": full, "aliases": list(node.get("aliases", [])), "fields": []}
+            table[full] = d
+            for f in node["fields"]:
+                nf = {"name": f["name"], "type": conv(f["type"]), "aliases": list(f.get("aliases", []))}
+                if "default" in f:
+                    nf["default"] = f["default"]
+                d["fields"].append(nf)
+        else:
+            d = _copy.deepcopy(node)
+            table[full] = d
+        return {"k": "ref", "name": full}
+
+    return conv(ir), table
+
+
+def linearize(root, table):
+    """(root, table) graph -> IR with each definition placed at its first use (depth-first)."""
+    placed = set()
+    out_table = {}
+
+    def lin(node):
+        k = node["k"]
+        if k in M.PRIMS:
+            return dict(node)
+        if k == "array":
+            return {"k": "array", "items": lin(node["items"])}
+        if k == "map":
+            return {"k": "map", "values": lin(node["values"])}
+        if k == "union":
+            return {"k": "union", "branches": [lin(b) for b in node["branches"]]}
+        assert k == "ref", k
+        full = node["name"]
+        if full in placed:
+            return {"k": "ref", "name": full}
+        placed.add(full)
+        d = table[full]
+        if d["k"] == "record":
+            nd = {"k": "record", "name": full, "aliases": list(d.get("aliases", [])), "fields": []}
+            out_table[full] = nd
+            for f in d["fields"]:
+                nf = {"name": f["name"], "type": lin(f["type"]), "aliases": list(f.get("aliases", []))}
+                if "default" in f:
+                    nf["default"] = f["default"]
+                nd["fields"].append(nf)
+            return nd
+        nd = _copy.deepcopy(d)
+        out_table[full] = nd
+        return nd
+
+    ir = lin(root)
+    return ir, out_table
+
+
+def union_ok(node, table):
+    seen_k, seen_n = set(), set()
+    for b in node["branches"]:
+        if b["k"] == "union":
+            return False
+        if b["k"] == "ref":
+            if b["name"] in seen_n:
+                return False
+            seen_n.add(b["name"])
+        else:
+            if b["k"] in seen_k:
+                return False
+            seen_k.add(b["k"])
+    return len(node["branches"]) >= 1
+
+
+def graph_ok(root, table):
+    def ok(node):
+        k = node["k"]
+        if k == "union":
+            return union_ok(node, table) and all(ok(b) for b in node["branches"])
+        if k == "array":
+            return ok(node["items"])
+        if k == "map":
+            return ok(node["values"])
+        if k == "ref":
+            return node["name"] in table
+        return True
+
+    if not ok(root):
+        return False
+    for d in table.values():
+        if d["k"] == "record":
+            names = [f["name"] for f in d["fields"]]
+            if len(names) != len(set(names)):
+                return False
+            if not all(ok(f["type"]) for f in d["fields"]):
+                return False
+        if d["k"] == "enum" and (len(d["symbols"]) < 1 or len(set(d["symbols"])) != len(d["symbols"])):
+            return False
+    # a by-name reference to a null-namespace type cannot be spelled from inside a namespaced record
+    try:
+        ir, _ = linearize(reachable_root(root), table)
+    except KeyError:
+        return False
+    return _spellable(ir, "")
+
+
+def reachable_root(root):
+    return root
+
+
+def _spellable(node, ns):
+    k = node["k"]
+    if k == "ref":
+        tns = M.split_full(node["name"])[0]
+        return bool(tns) or ns == ""
+    if k == "array":
+        return _spellable(node["items"], ns)
+    if k == "map":
+        return _spellable(node["values"], ns)
+    if k == "union":
+        return all(_spellable(b, ns) for b in node["branches"])
+    if k == "record":
+        tns = M.split_full(node["name"])[0]
+        return all(_spellable(f["type"], tns) for f in node["fields"])
+    return True
+
+
+SIMPLE_ADDS = [
+    ({"k": "int"}, 0), ({"k": "string"}, "x"), ({"k": "boolean"}, True), ({"k": "null"}, None), ({"k": "double"}, 1.5),
+    ({"k": "long"}, -7), ({"k": "union", "branches": [{"k": "null"}, {"k": "int"}]}, None),
+    ({"k": "array", "items": {"k": "int"}}, []), ({"k": "map", "values": {"k": "string"}}, {}),
+    ({"k": "array", "items": {"k": "string"}}, ["a", "b"]),
+]
+NONPROMO = {"int": "string", "long": "boolean", "float": "int", "double": "float", "string": "int", "bytes": "long", "boolean": "int", "null": "int"}
+EVO_STEPS = [
+    ("reorder", 4), ("drop-field", 5), ("add-field-default", 4), ("rename-field-alias", 3), ("promote", 6),
+    ("enum-add", 2), ("enum-remove-default", 3), ("rename-type-alias", 3), ("change-namespace", 2),
+    ("wrap-union", 5), ("unwrap-union", 3), ("permute-union", 3), ("union-insert-branch", 5),
+    ("add-field-nodefault", 2), ("change-type", 2), ("enum-remove-nodefault", 2), ("fixed-size", 1), ("rename-type-noalias", 1), ("union-drop-branch", 2),
+]
+
+
+def _slots(root_holder, table):
+    """All type positions as (container, key)."""
+    out = []
+
+    def visit(container, key):
+        node = container[key]
+        out.append((container, key))
+        k = node["k"]
+        if k == "array":
+            visit(node, "items")
+        elif k == "map":
+            visit(node, "values")
+        elif k == "union":
+            for i in range(len(node["branches"])):
+                visit(node["branches"], i)
+
+    visit(root_holder, "root")
+    for d in table.values():
+        if d["k"] == "record":
+            for f in d["fields"]:
+                visit(f, "type")
+    return out
+
+
+def _rename(root_holder, table, old, new):
+    d = table.pop(old)
+    d["name"] = new
+    table[new] = d
+    for c, k in _slots(root_holder, table):
+        if c[k]["k"] == "ref" and c[k]["name"] == old:
+            c[k] = {"k": "ref", "name": new}
+
+
+def json_default_ok(node, table, dj, depth=0):
+    """Is `dj` a specification-valid JSON default for `node` (first branch for unions)?"""
+    if depth > 20:
+        return False
+    n = table[node["name"]] if node["k"] == "ref" else node
+    k = n["k"]
+    if k == "union":
+        return json_default_ok(n["branches"][0], table, dj, depth + 1)
+    if k == "null":
+        return dj is None
+    if k == "boolean":
+        return isinstance(dj, bool)
+    if k in ("int", "long"):
+        lo, hi = (B.INT_MIN, B.INT_MAX) if k == "int" else (B.LONG_MIN, B.LONG_MAX)
+        return isinstance(dj, int) and not isinstance(dj, bool) and lo <= dj <= hi
+    if k in ("float", "double"):
+        return isinstance(dj, float)  # keep JSON default == Python value (no int literals for floats)
+    if k == "string":
+        return isinstance(dj, str)
+    if k in ("bytes", "fixed"):
+        return False  # bytes/fixed defaults are outside the main campaign (F-DEFAULT-BYTES)
+    if k == "enum":
+        return isinstance(dj, str) and dj in n["symbols"]
+    if k == "array":
+        return isinstance(dj, list) and all(json_default_ok(n["items"], table, x, depth + 1) for x in dj)
+    if k == "map":
+        return isinstance(dj, dict) and all(json_default_ok(n["values"], table, x, depth + 1) for x in dj.values())
+    if k == "record":
+        if not isinstance(dj, dict):
+            return False
+        for f in n["fields"]:
+            if f["name"] in dj:
+                if not json_default_ok(f["type"], table, dj[f["name"]], depth + 1):
+                    return False
+            else:
+                return False  # fully specified record defaults only
+        return True
+    return False
+
+
+def fix_defaults(table):
+    """Drop field defaults that an evolution step made invalid for the field's new type."""
+    for d in table.values():
+        if d["k"] == "record":
+            for f in d["fields"]:
+                if "default" in f and not json_default_ok(f["type"], table, f["default"]):
+                    del f["default"]
+        if d["k"] == "enum" and "default" in d and d["default"] not in d["symbols"]:
+            del d["default"]
+
+
+def evolve(d, root, table, nsteps):
+    """Reader graph derived from the writer graph by `nsteps` drawn evolution steps."""
+    holder = {"root": _copy.deepcopy(root)}
+    table = _copy.deepcopy(table)
+    applied = []
+    for _ in range(nsteps):
+        for _attempt in range(4):
+            step = d.weighted(EVO_STEPS)
+            snap_h, snap_t = _copy.deepcopy(holder), _copy.deepcopy(table)
+            if _apply(d, step, holder, table) and graph_ok(holder["root"], table):
+                fix_defaults(table)
+                applied.append(step)
+                break
+            holder, table = snap_h, snap_t
+    return holder["root"], table, applied
+
+
+def _apply(d, step, holder, table):
+    recs = [x for x in table.values() if x["k"] == "record"]
+    enums = [x for x in table.values() if x["k"] == "enum"]
+    fixeds = [x for x in table.values() if x["k"] == "fixed"]
+    slots = _slots(holder, table)
+    if step == "reorder":
+        c = [r for r in recs if len(r["fields"]) >= 2]
+        if not c:
+            return False
+        r = d.choice(c)
+        k = d.rng(1, len(r["fields"]) - 1)
+        r["fields"] = r["fields"][k:] + r["fields"][:k]
+        if d.p(0.5):
+            r["fields"].reverse()
+        return True
+    if step == "drop-field":
+        c = [r for r in recs if r["fields"]]
+        if not c:
+            return False
+        r = d.choice(c)
+        del r["fields"][d.i(len(r["fields"]))]
+        return True
+    if step in ("add-field-default", "add-field-nodefault"):
+        if not recs:
+            return False
+        r = d.choice(recs)
+        t, dv = d.choice(SIMPLE_ADDS)
+        f = {"name": f"added{len(r['fields'])}", "type": _copy.deepcopy(t), "aliases": []}
+        if step == "add-field-default":
+            f["default"] = _copy.deepcopy(dv)
+        r["fields"].insert(d.i(len(r["fields"]) + 1), f)
+        return True
+    if step == "rename-field-alias":
+        c = [r for r in recs if r["fields"]]
+        if not c:
+            return False
+        f = d.choice(d.choice(c)["fields"])
+        f["aliases"] = [f["name"]] + ([ "unrelated_alias"] if d.p(0.3) else [])
+        f["name"] = "ren_" + f["name"]
+        return True
+    if step == "promote":
+        c = [(cn, k) for cn, k in slots if cn[k]["k"] in ("int", "long", "float", "string", "bytes")]
+        if not c:
+            return False
+        cn, k = d.choice(c)
+        from .ref.resolve import PROMOTE
+        cn[k] = {"k": d.choice(PROMOTE[cn[k]["k"]])}
+        return True
+    if step == "change-type":
+        c = [(cn, k) for cn, k in slots if cn[k]["k"] in NONPROMO]
+        if not c:
+            return False
+        cn, k = d.choice(c)
+        cn[k] = {"k": NONPROMO[cn[k]["k"]]}
+        return True
+    if step == "enum-add":
+        if not enums:
+            return False
+        e = d.choice(enums)
+        e["symbols"].insert(d.i(len(e["symbols"]) + 1), "ZNEW")
+        return True
+    if step in ("enum-remove-default", "enum-remove-nodefault"):
+        c = [e for e in enums if len(e["symbols"]) >= 2]
+        if not c:
+            return False
+        e = d.choice(c)
+        del e["symbols"][d.i(len(e["symbols"]))]
+        if step == "enum-remove-default":
+            e["default"] = d.choice(e["symbols"])
+        else:
+            e.pop("default", None)
+        return True
+    if step == "fixed-size":
+        if not fixeds:
+            return False
+        d.choice(fixeds)["size"] += 1
+        return True
+    if step in ("rename-type-alias", "rename-type-noalias", "change-namespace"):
+        if not table:
+            return False
+        old = d.choice(list(table))
+        ns, short = M.split_full(old)
+        if step == "change-namespace":
+            nns = d.choice([x for x in ["evo", "", "ns", "evo.deep"] if x != ns])
+            new = nns + "." + short if nns else short
+        else:
+            new = (ns + "." if ns else "") + "Ren" + short
+        if new in table:
+            return False
+        _rename(holder, table, old, new)
+        if step == "rename-type-alias":
+            table[new]["aliases"] = [old if (ns and d.p(0.5)) else short] + (["Other.Alias"] if d.p(0.3) else [])
+        return True
+    if step == "wrap-union":
+        c = [(cn, k) for cn, k in slots if cn[k]["k"] != "union" and not isinstance(cn, list)]
+        if not c:
+            return False
+        cn, k = d.choice(c)
+        t = cn[k]
+        tk = t["k"]
+        others = [x for x in ["float", "double", "long", "null", "string", "bytes", "int", "boolean"] if x != tk]
+        x = {"k": d.choice(others)}
+        extra = {"k": d.choice([o for o in others if o != x["k"]])} if d.p(0.3) else None
+        bs = [x, t] if d.p(0.6) else [t, x]
+        if extra:
+            bs.insert(d.i(3), extra)
+        cn[k] = {"k": "union", "branches": bs}
+        return True
+    if step == "unwrap-union":
+        c = [(cn, k) for cn, k in slots if cn[k]["k"] == "union"]
+        if not c:
+            return False
+        cn, k = d.choice(c)
+        cn[k] = d.choice(cn[k]["branches"])
+        return True
+    if step == "permute-union":
+        c = [(cn, k) for cn, k in slots if cn[k]["k"] == "union" and len(cn[k]["branches"]) >= 2]
+        if not c:
+            return False
+        cn, k = d.choice(c)
+        b = cn[k]["branches"]
+        r = d.rng(1, len(b) - 1)
+        cn[k]["branches"] = b[r:] + b[:r]
+        return True
+    if step == "union-insert-branch":
+        c = [(cn, k) for cn, k in slots if cn[k]["k"] == "union"]
+        if not c:
+            return False
+        cn, k = d.choice(c)
+        u = cn[k]
+        have = {b["k"] for b in u["branches"]}
+        from .ref.resolve import PROMOTE
+        targets = [t for b in u["branches"] for t in PROMOTE.get(b["k"], ()) if t not in have]
+        pool = targets if (targets and d.p(0.75)) else [x for x in M.PRIMS if x not in have]
+        if not pool:
+            return False
+        u["branches"].insert(d.i(len(u["branches"]) + 1), {"k": d.choice(pool)})
+        return True
+    if step == "union-drop-branch":
+        c = [(cn, k) for cn, k in slots if cn[k]["k"] == "union" and len(cn[k]["branches"]) >= 2]
+        if not c:
+            return False
+        cn, k = d.choice(c)
+        del cn[k]["branches"][d.i(len(cn[k]["branches"]))]
+        return True
+    raise AssertionError(step)
+
+
+def reachable_table(root, table):
+    """Definitions reachable from root (dropping a field may orphan a type)."""
+    seen = {}
+
+    def visit(node):
+        k = node["k"]
+        if k == "ref":
+            if node["name"] not in seen:
+                seen[node["name"]] = table[node["name"]]
+                dd = table[node["name"]]
+                if dd["k"] == "record":
+                    for f in dd["fields"]:
+                        visit(f["type"])
+        elif k == "array":
+            visit(node["items"])
+        elif k == "map":
+            visit(node["values"])
+        elif k == "union":
+            for b in node["branches"]:
+                visit(b)
+
+    visit(root)
+    return seen
